@@ -45,6 +45,8 @@ type Config struct {
 	// ReloadB > 0: the alphabet has a reload that replaces R1b by a rule with the threshold toggled
 	// between its own and ReloadB (entries may be in flight; all counters must be kept)
 	ReloadB int64 `json:"reload_r1b_threshold,omitempty"`
+	// ArgKind: Go type of the metered argument values: "" string, "int64", "named" (a named int32 type)
+	ArgKind string `json:"arg_kind,omitempty"`
 }
 
 func (c Config) String() string { b, _ := json.Marshal(c); return string(b) }
@@ -173,6 +175,7 @@ func (s *scen) ruleList() []*hotspot.Rule {
 
 func (s *scen) Reset() {
 	env.ResetAll(env.DefaultGeometry, 1700000000000)
+	argKind = s.cfg.ArgKind
 	if s.cfg.R1b != nil {
 		s.r1bTh = s.cfg.R1b.Threshold
 	}
@@ -219,17 +222,39 @@ func (s *scen) liveCount(res, val string) int64 {
 	return n
 }
 
+type namedInt int32
+
+// argKind is the ArgKind of the configuration being explored (set by Reset)
+var argKind string
+
+// arg maps the harness's value names to the Go value passed to Entry
+func arg(val string) interface{} {
+	n := int64(7)
+	if val == "B" {
+		n = 8
+	}
+	switch argKind {
+	case "int64":
+		return n
+	case "named":
+		return namedInt(n)
+	}
+	return val
+}
+
+func argName(val string) string { return fmt.Sprint(arg(val)) }
+
 func entryOpts(spec RuleSpec, val string) []sentinel.EntryOption {
 	var opts []sentinel.EntryOption
 	if val == "" {
 		return opts
 	}
 	if spec.ByKey {
-		opts = append(opts, sentinel.WithAttachment("k", val), sentinel.WithArgs("decoy"))
+		opts = append(opts, sentinel.WithAttachment("k", arg(val)), sentinel.WithArgs("decoy"))
 	} else if spec.Index == -1 {
-		opts = append(opts, sentinel.WithArgs("decoy", val))
+		opts = append(opts, sentinel.WithArgs("decoy", arg(val)))
 	} else {
-		opts = append(opts, sentinel.WithArgs(val, "decoy"))
+		opts = append(opts, sentinel.WithArgs(arg(val), "decoy"))
 	}
 	return opts
 }
@@ -264,7 +289,7 @@ func (s *scen) Apply(i int) (string, string) {
 	spec := s.spec(o.res)
 	opts := append(entryOpts(spec, o.val), sentinel.WithSlotChain(s.chain))
 	if o.short {
-		opts = []sentinel.EntryOption{sentinel.WithArgs(o.val), sentinel.WithSlotChain(s.chain)}
+		opts = []sentinel.EntryOption{sentinel.WithArgs(arg(o.val)), sentinel.WithSlotChain(s.chain)}
 	}
 	if o.later {
 		opts = append(opts, sentinel.WithFlag(9))
@@ -348,7 +373,7 @@ func (s *scen) invariants(o opDef) string {
 		}
 		m := s.counters(res)
 		for _, v := range []string{"A", "B"} {
-			if g, w := m[v], s.liveCount(res, v); g != w {
+			if g, w := m[argName(v)], s.liveCount(res, v); g != w {
 				return fmt.Sprintf("after %v: per-value in-flight figure of %s/%s = %d, live entries = %d", o, res, v, g, w)
 			}
 		}
@@ -374,17 +399,17 @@ func (s *scen) invariants(o opDef) string {
 		ctx := l.e.Context()
 		got := ""
 		if spec.ByKey {
-			got, _ = ctx.Input.Attachments["k"].(string)
+			got = fmt.Sprint(ctx.Input.Attachments["k"])
 		} else if l.val != "" {
 			idx := 0
 			if spec.Index == -1 {
 				idx = len(ctx.Input.Args) - 1
 			}
 			if idx >= 0 && idx < len(ctx.Input.Args) {
-				got, _ = ctx.Input.Args[idx].(string)
+				got = fmt.Sprint(ctx.Input.Args[idx])
 			}
 		}
-		if got != l.val {
+		if l.val != "" && got != argName(l.val) {
 			return fmt.Sprintf("after %v: live entry %d was admitted with value %q, its context now carries %q", o, k, l.val, got)
 		}
 	}
@@ -443,6 +468,9 @@ func configs() []Config {
 		{R1: sp(2, map[string]int64{"A": 1}, false, 0), R1b: &RuleSpec{Threshold: 3, Index: 1}, R1bFirst: true},
 		{R1: sp(2, nil, false, 0), R1b: &RuleSpec{Threshold: 2, Index: 1}, ReloadB: 3},
 		{R1: sp(1, nil, false, 0), R1b: &RuleSpec{Threshold: 3, Index: 1}, R1bFirst: true, ReloadB: 1},
+		{R1: sp(2, nil, false, 0), ArgKind: "int64"},
+		{R1: sp(1, nil, true, 0), ArgKind: "named"},
+		{R1: sp(2, nil, false, -1), R3: &r3, ArgKind: "named"},
 	}
 }
 
